@@ -22,6 +22,8 @@ def subset_dim(fd, U, l, rng, order):
         pick = pick[1:] + pick[:1]
     elif order == "rand":
         pick = rng.permutation(pick).tolist()
+    if rng.random() < 0.3:
+        return U[l].model_copy(update={"letter": l.upper(), "name": "sub " + U[l].name, "items": [its[i] for i in pick]})
     return fd.Dimension(letter=l.upper(), name="sub " + U[l].name, items=[its[i] for i in pick])
 
 
@@ -99,7 +101,23 @@ def do_reads(hub, U, letters, assign, rng, regime):
                 continue
             key = build_key(fd, U, letters, assign, rng, order, spelling)
             try:
-                x[key]
+                r = x[key]
+            except Exception:
+                continue
+            # the result is an array in its own right: address it by the labels of ITS dimensions (subset dimensions included)
+            try:
+                rl = list(r.dims.letters)
+                if rl and rng.random() < 0.5:
+                    d0 = r.dims[rl[int(rng.integers(0, len(rl)))]]
+                    it = d0.items[int(rng.integers(0, len(d0.items)))]
+                    for k2 in ({d0.letter: it}, {d0.name: it}, it):
+                        try:
+                            r[k2]
+                        except Exception:
+                            pass
+                    r2 = r.copy()
+                    r2[{d0.letter: it}] = 3.25
+                    r.split(d0.letter)
             except Exception:
                 pass
 
@@ -215,6 +233,23 @@ def do_errors(hub, U, letters, rng):
             t[k] = 1.0
         except Exception:
             pass
+    # integers just outside an integer dimension's items (must be unknown labels, never positions or offsets)
+    for l in letters:
+        its = list(U[l].items)
+        if all(isinstance(i, int) and not isinstance(i, bool) for i in its):
+            for bad in (min(its) - 1, max(its) + 1, min(its) - len(its), 0, len(its) - 1):
+                if bad in its:
+                    continue
+                for k in ({l: bad}, {U[l].name: bad}, bad, {l: [its[0], bad]}):
+                    try:
+                        x[k]
+                    except Exception:
+                        pass
+                    t = x.copy()
+                    try:
+                        t[k] = 1.0
+                    except Exception:
+                        pass
     # ambiguity: two dimensions sharing an item
     d1 = fd.Dimension(letter="p", name="first", items=["x", "y", "both"])
     d2 = fd.Dimension(letter="q", name="second", items=["both", "z"])
